@@ -63,6 +63,35 @@ def sample(rx_src):
     return gen(sre_parse.parse(rx_src))
 
 
+def plugin_vendor(name, expr):
+    from annet.vendors.base import AbstractVendor
+    from annet.annlib.netdev.views.hardware import HardwareView
+    from annet.annlib.tabparser import CommonFormatter
+
+    class Plug(AbstractVendor):
+        NAME = name
+
+        def match(self):
+            return [expr]
+
+        @property
+        def reverse(self):
+            return "no"
+
+        @property
+        def exit(self):
+            return "exit"
+
+        @property
+        def hardware(self):
+            return HardwareView("")
+
+        def make_formatter(self, **kwargs):
+            return CommonFormatter(**kwargs)
+    Plug.__name__ = "Plug_" + name
+    return Plug
+
+
 def variants(seq):
     return {seq[left:len(seq) - right] + (seq[-1],) for left in range(len(seq)) for right in range(1, len(seq) - left + 1)}
 
@@ -114,7 +143,8 @@ def run(ctx):
     allm = [(".".join(s), m) for s, m in models.items()] + [("vendor:" + v, m) for v, m in canon_models.items() if m]
     allm += [("menu:" + v, m) for v, ms in E.MODELS.items() for m in ms]            # real model spellings per family
     allm += [("unknown", "Acme Router X1"), ("unknown", "")]                        # no database node is true: no vendor
-    vendor_classes = {name: type(reg[name]) for name in reg}
+    base_classes = {name: type(reg[name]) for name in reg}
+    vendor_classes = base_classes
     recs = []
     for label, model in allm:
         hw = E.hwview(model, "")
@@ -145,6 +175,17 @@ def run(ctx):
                             matching.append(name)
                 except AttributeError:
                     pass
+        # a site plug-in vendor for the deepest family of this model (vendors may be registered for any node of the database, e.g. one
+        # model line below a shipped vendor's family): it is the most specific match wherever it stands in the registration order
+        deep = max(true_full, key=len) if true_full else []
+        if len(deep) >= 3 and len(recs) % 2 == 0 and not label.startswith("menu:"):
+            pname = "plug_" + "_".join(deep).lower()
+            vendor_classes = dict(base_classes)              # the plug-in exists for this model's registries only
+            vendor_classes[pname] = plugin_vendor(pname, ".".join(deep))
+            cands.append({"v": pname, "dots": len(deep) - 1})
+            matching.append(pname)
+        else:
+            vendor_classes = base_classes
         choices = []
         others = [n for n in vendor_classes if n not in matching]
         perms = list(itertools.permutations(matching)) if len(matching) <= 4 else [tuple(matching), tuple(reversed(matching))]
